@@ -14,6 +14,10 @@ func (p *c10Printer) raw(s string) { p.b = append(p.b, s...) }
 
 // kw prints a keyword with a symbolic letter case for every letter.
 func (p *c10Printer) kw(s string) {
+	if vsymParam("symcase") == 0 {
+		p.raw(s)
+		return
+	}
 	for i := 0; i < len(s); i++ {
 		c := s[i]
 		if c >= 'A' && c <= 'Z' || c >= 'a' && c <= 'z' {
@@ -118,7 +122,11 @@ func (p *c10Printer) seqSet(r int) []SeqRange {
 				p.raw("*")
 				return SeqNumValueAsterisk
 			}
-			n := p.nzNumber(1 + vsymChoice("ndigits", 2)*8) // 1 or 9 digits (32-bit range)
+			nd := 1
+			if vsymParam("bigset") == 1 {
+				nd = 1 + vsymChoice("ndigits", 2)*8 // 1 or 9 digits (32-bit range)
+			}
+			n := p.nzNumber(nd)
 			return SeqNum(n)
 		}
 		b := one()
@@ -145,6 +153,10 @@ func c10SameSeqSet(a, b []SeqRange) bool {
 }
 
 func c10Tag(p *c10Printer) string {
+	if vsymParam("symtag") == 0 {
+		p.raw("a1")
+		return "a1"
+	}
 	n := 1 + vsymChoice("tagLen", 2)
 	t := vsymBytes("tag", n)
 	for _, c := range t {
@@ -184,7 +196,10 @@ func VerifC10Strings() {
 	p := &c10Printer{}
 	tag := c10Tag(p)
 	p.raw(" ")
-	which := vsymChoice("cmd", 11)
+	which := vsymParam("cmd")
+	if which < 0 {
+		which = vsymChoice("cmd", 11)
+	}
 	a := vsymBytes("argA", L)
 	var b []byte
 	switch which {
